@@ -1,36 +1,38 @@
 (* C04 (concurrent part) — invariants of sync2.Map over ALL interleavings.
    Statements only; every proof is [exact] of a theorem of SyncMap/Inv.v.
-   Quantifiers: every number of instances n, every list of programs (one per
-   goroutine, any calls, any length), every schedule (list of (thread,
-   iteration choice); entries that are not enabled are skipped), i.e. every
-   reachable configuration of the small-step model SyncMap/Model.v. No bound.
-   To be merged into Props/C04.v. *)
+   Quantifiers: every list of instances (each with its zero-size flag, see
+   cas_ok in SyncMap/Model.v: the theorems hold for both values of the flag),
+   every list of programs (one per goroutine, any calls, any length), every
+   schedule (list of (thread, iteration choice); entries that are not enabled
+   are skipped), i.e. every reachable configuration of the small-step model
+   SyncMap/Model.v. No bound. One of the files of property C04 (bin/props/
+   C04.json, props_files): C04 (sequential), C04conc, C04refs, C04lin, C04range. *)
 From Typ Require Import SyncMap.Model SyncMap.Inv.
 
 (* ---- 1. lock discipline ---- *)
 (* m.mu of instance j is held by t exactly when t's current frame works on j
    and is between the step after its *_lock and its *_unlock ([holder],
    [in_cs]: by program counter) ... *)
-Theorem C04_mu_held_iff_in_critical_section : forall n progs sched j i t,
-  let c := run_schedule (init_config n progs) sched in
+Theorem C04_mu_held_iff_in_critical_section : forall zs progs sched j i t,
+  let c := run_schedule (init_config_z zs progs) sched in
   nth_error (c_insts c) j = Some i ->
   (i_mu i = Some t <-> holder c j t).
-Proof. exact mu_held_iff_in_cs. Qed.
+Proof. exact mu_held_iff_in_cs_z. Qed.
 Print Assumptions C04_mu_held_iff_in_critical_section.
 
 (* ... so at most one thread is inside the critical section of an instance. *)
-Theorem C04_mutual_exclusion : forall n progs sched j i t1 t2,
-  let c := run_schedule (init_config n progs) sched in
+Theorem C04_mutual_exclusion : forall zs progs sched j i t1 t2,
+  let c := run_schedule (init_config_z zs progs) sched in
   nth_error (c_insts c) j = Some i -> holder c j t1 -> holder c j t2 -> t1 = t2.
-Proof. exact mutual_exclusion. Qed.
+Proof. exact mutual_exclusion_z. Qed.
 Print Assumptions C04_mutual_exclusion.
 
 (* Every step that changes m.dirty, m.misses, read.m or read.amended of an
    instance is taken by the thread that holds its mu: a step of a thread that
    does not hold it leaves all of them unchanged, allocates no entry, leaves
    the expunged status of every entry as it is, and at most acquires the free lock. *)
-Theorem C04_lock_discipline : forall n progs sched t ch c' j i i',
-  let c := run_schedule (init_config n progs) sched in
+Theorem C04_lock_discipline : forall zs progs sched t ch c' j i i',
+  let c := run_schedule (init_config_z zs progs) sched in
   step c t ch = Some c' -> nth_error (c_insts c) j = Some i -> nth_error (c_insts c') j = Some i' ->
   i_mu i <> Some t ->
   dirty (i_st i') = dirty (i_st i) /\ misses (i_st i') = misses (i_st i) /\
@@ -38,7 +40,7 @@ Theorem C04_lock_discipline : forall n progs sched t ch c' j i i',
   next_e (i_st i') = next_e (i_st i) /\
   (forall e, get_ent (i_st i') e = PExpunged <-> get_ent (i_st i) e = PExpunged) /\
   (i_mu i' = i_mu i \/ (i_mu i = None /\ i_mu i' = Some t)).
-Proof. exact lock_discipline. Qed.
+Proof. exact lock_discipline_z. Qed.
 Print Assumptions C04_lock_discipline.
 
 (* ---- 2. no panic ---- *)
@@ -47,9 +49,9 @@ Print Assumptions C04_lock_discipline.
    Set.AddSet / RemoveSet) never panic: no assignment to a nil dirty map, no
    nil entry dereference. ([nopost] only excludes the keyed-mutex wrappers,
    whose Unlock of an unlocked mutex panics by design.) *)
-Theorem C04_no_panic : forall n progs sched,
-  Forall (Forall nopost) progs -> c_panicked (run_schedule (init_config n progs) sched) = false.
-Proof. exact no_panic. Qed.
+Theorem C04_no_panic : forall zs progs sched,
+  Forall (Forall nopost) progs -> c_panicked (run_schedule (init_config_z zs progs) sched) = false.
+Proof. exact no_panic_z. Qed.
 Print Assumptions C04_no_panic.
 
 (* ---- 3. structure ---- *)
@@ -58,37 +60,37 @@ Print Assumptions C04_no_panic.
    iff dirty non-nil; dirty nil => no expunged entry in read.m; dirty non-nil =>
    every entry of read.m is in dirty under the same key unless expunged, and
    then the key is absent from dirty. *)
-Theorem C04_structure_when_unlocked : forall n progs sched j i,
-  let c := run_schedule (init_config n progs) sched in
+Theorem C04_structure_when_unlocked : forall zs progs sched j i,
+  let c := run_schedule (init_config_z zs progs) sched in
   nth_error (c_insts c) j = Some i -> i_mu i = None -> WF (i_st i).
-Proof. exact structure_lock_free. Qed.
+Proof. exact structure_lock_free_z. Qed.
 Print Assumptions C04_structure_when_unlocked.
 
 (* While mu is held, the relaxation WFL indexed by the holder's pc holds
    (e.g. during dirtyLocked's loop only the visited keys are covered). *)
-Theorem C04_structure_when_locked : forall n progs sched j i t,
-  let c := run_schedule (init_config n progs) sched in
+Theorem C04_structure_when_locked : forall zs progs sched j i t,
+  let c := run_schedule (init_config_z zs progs) sched in
   nth_error (c_insts c) j = Some i -> i_mu i = Some t ->
   exists f, top_frame c t = Some f /\ call_inst (f_call f) = j /\ in_cs f = true /\ WFL (i_st i) f.
-Proof. exact structure_locked. Qed.
+Proof. exact structure_locked_z. Qed.
 Print Assumptions C04_structure_when_locked.
 
 (* The part that is never suspended. *)
-Theorem C04_structure_always : forall n progs sched j i,
-  let c := run_schedule (init_config n progs) sched in
+Theorem C04_structure_always : forall zs progs sched j i,
+  let c := run_schedule (init_config_z zs progs) sched in
   nth_error (c_insts c) j = Some i -> WF_core (i_st i).
-Proof. exact structure_always. Qed.
+Proof. exact structure_always_z. Qed.
 Print Assumptions C04_structure_always.
 
 (* Expunged is final: the only step that takes an entry out of the expunged
    state is Unexpunge_cas on that entry by the thread holding mu. *)
-Theorem C04_expunged_final : forall n progs sched t ch c' j i i' e,
-  let c := run_schedule (init_config n progs) sched in
+Theorem C04_expunged_final : forall zs progs sched t ch c' j i i' e,
+  let c := run_schedule (init_config_z zs progs) sched in
   step c t ch = Some c' -> nth_error (c_insts c) j = Some i -> nth_error (c_insts c') j = Some i' ->
   get_ent (i_st i) e = PExpunged -> get_ent (i_st i') e <> PExpunged ->
   i_mu i = Some t /\
   exists f, top_frame c t = Some f /\ call_inst (f_call f) = j /\ f_pc f = Unexpunge_cas /\ f_e f = Some e.
-Proof. exact expunged_final. Qed.
+Proof. exact expunged_final_z. Qed.
 Print Assumptions C04_expunged_final.
 
 (* ---- non-vacuity: the interesting interleavings are reachable ---- *)
